@@ -368,6 +368,25 @@ func runMembership(t *testing.T, run *obs.Run, c *obs.Case, crowded bool) {
 					t.Fatalf("HandshakeIncoming: %v", err)
 				}
 			})
+		case x < 93 && w.route.IsNeighbor(p):
+			// the peer stops being a direct neighbour WITHOUT a disconnect event (it is now
+			// reached through a relay) and shakes hands again for every group: it must move out
+			// of the connected lists. Both happen inside one step, so the "connected => neighbour"
+			// clause is judged only after the node had its chance to react.
+			var idx []int
+			var raw [][]byte
+			for i := range w.gids {
+				idx = append(idx, i)
+				raw = append(raw, w.gids[i].Bytes())
+			}
+			w.step(fmt.Sprintf("becomesRelayed(p%d)+handshakeIncoming(all groups)", pi), func() {
+				w.route.set(p, false)
+				w.joinedOf[p.ByteString()] = idx
+				if err := w.inbound("handshake", p, enc(&pb.GIDs{Gid: raw})); err != nil {
+					t.Fatalf("HandshakeIncoming: %v", err)
+				}
+			})
+			w.run.Stat("neighbour_lost_without_disconnect_then_handshake", 1)
 		case x < 95:
 			w.step(fmt.Sprintf("unreachable(p%d)=%v", pi, !w.failing[p.ByteString()]), func() {
 				w.failing[p.ByteString()] = !w.failing[p.ByteString()]
